@@ -892,9 +892,19 @@ func oracleC11(r *Result) []*Violation {
 		}
 		natural[n] = append(natural[n], iv.Path)
 	}
+	// "kept when it conflicts with nothing" is judged only where nothing conflicts at all: the
+	// natural qualifiers (source alias, else package name) of all imports of the file are
+	// pairwise distinct, so no conflict resolution (whose cascades may legitimately take an
+	// alias away) is involved.
+	anyClash := false
+	for _, ps := range natural {
+		if len(ps) > 1 {
+			anyClash = true
+		}
+	}
 	for _, iv := range ivs {
 		a, ok := srcAlias[iv.Path]
-		if !ok || conflictAlias[iv.Path] {
+		if !ok || conflictAlias[iv.Path] || anyClash {
 			continue
 		}
 		if len(natural[a]) == 1 && iv.Qualifier != a {
